@@ -43,6 +43,8 @@ type History struct {
 	Diff   []int64 `json:"diff"`
 	Ops    []Op    `json:"ops"`
 	Heavy  bool    `json:"heavy"` // blocks carry many storage writes (pre-image flush path)
+	From   int     `json:"from"`  // crash / fault points are enumerated for units of operations >= From only
+	Only   string  `json:"only"`  // "pruning": run under the pruning configuration only
 }
 
 func ip(i int) *int { return &i }
@@ -63,6 +65,20 @@ func histories(tier string) []History {
 			Ops: []Op{{Ins: []int{0}}, {Ins: []int{1}}, {Ins: []int{2}}, {Stop: true}}},
 	}
 	if tier == "thorough" {
+		long := History{Name: "H5-stop-of-pruning-node-135-blocks", Only: "pruning", From: 3}
+		for i := 0; i < 135; i++ {
+			long.Parent = append(long.Parent, i-1)
+			long.Diff = append(long.Diff, 2)
+		}
+		seq := func(a, b int) []int {
+			var o []int
+			for i := a; i < b; i++ {
+				o = append(o, i)
+			}
+			return o
+		}
+		long.Ops = []Op{{Ins: seq(0, 45)}, {Ins: seq(45, 90)}, {Ins: seq(90, 133)}, {Ins: seq(133, 135)}, {Stop: true}}
+		hs = append(hs, long)
 		hs = append(hs,
 			History{Name: "H8-three-way-fork", Parent: []int{-1, 0, -1, 2, -1, 4, 5}, Diff: []int64{2, 2, 3, 4, 1, 4, 9},
 				Ops: []Op{{Ins: []int{0}}, {Ins: []int{2}}, {Ins: []int{4}}, {Ins: []int{1}}, {Ins: []int{3}}, {Ins: []int{5, 6}}, {Stop: true}}},
@@ -85,6 +101,9 @@ func txFor(env *chainkit.Env, heavy bool) func(s chaintree.Shape, i int, g *core
 		if depth == 1 {
 			tx, _ := types.SignTx(types.NewContractCreation(g.TxNonce(a0), big.NewInt(0), 300000, big.NewInt(1), creation), env.Signer, env.Keys[0])
 			g.AddTx(tx)
+			return
+		}
+		if len(s.Parent) > 50 && depth%20 != 0 && depth < 130 {
 			return
 		}
 		// call a contract created at depth 1 by this branch's ancestor (address = f(sender, nonce 0))
@@ -620,6 +639,9 @@ func worker(shard, nsh int) {
 	for _, h := range histories(tier) {
 		w := build(h)
 		for _, pruning := range []bool{false, true} {
+			if h.Only == "pruning" && !pruning {
+				continue
+			}
 			cfgName := "archive"
 			if pruning {
 				cfgName = "pruning"
@@ -651,6 +673,9 @@ func worker(shard, nsh int) {
 				for k := 0; k <= len(units); k++ {
 					if k > 0 {
 						im.Apply(units[k-1])
+					}
+					if k < len(units) && units[k].Op < h.From {
+						continue
 					}
 					task++
 					if task%nsh != shard {
@@ -684,6 +709,9 @@ func worker(shard, nsh int) {
 				}
 				// ---- fault points: every unit fails once
 				for j := 0; j < len(units); j++ {
+					if units[j].Op < h.From {
+						continue
+					}
 					task++
 					if task%nsh != shard {
 						continue
